@@ -1,8 +1,10 @@
 (* C16 - a failing backend never leaves a task stuck in a transaction or locks held.  Statements only.
    Proved: context reset on every path; the release protocol for any fault set (every held lock gets its own release
-   command, a key survives only if that very command failed), through rollback of any number of backends and through
-   one backend's commit.  NOT proved (covered by the exhaustive fault enumeration of the correspondence only):
-   fault_body_atomic, and the composition of commit over several backends. *)
+   command, a key survives only if that very command failed), through rollback of any number of backends, through one
+   backend's commit and through Transaction.commit over any number of backends (a failing commit rolls the rest back).
+   NOT proved (covered by the exhaustive fault enumeration of the correspondence only): that the body keeps the lock
+   bookkeeping in step with the store (every lock entry written is recorded in the backend's lock set) and that a
+   fault in the body applies nothing - the hypotheses `wfw` / "lock keys are not data keys" of the exit theorems. *)
 From Cashews Require Import Base.Prelude Spec.TTLMap Model.Tags Model.Txn Model.TxnFault Proofs.TxnFaultProofs.
 
 (* any program, any mode, any fault set: when the block is over the task is no longer inside the transaction *)
@@ -54,3 +56,28 @@ Theorem C16_commit_releases_partial : forall U now w i, (i < length (bks w))%nat
   (forall j, j <> i -> get_b w' j = get_b w j) /\ bLocks (get_b w' i) = [].
 Proof. exact backend_commit_releases. Qed.
 Print Assumptions C16_commit_releases_partial.
+
+(* one backend's commit, any fault set: lock set emptied, every lock key it held gone from its store unless a command of
+   this very commit / release failed (lock keys are not data keys) *)
+Theorem C16_backend_commit : forall U now w i, (i < length (bks w))%nat -> NoDup (bLocks (get_b w i)) -> NoDup (nth i (lorder w) []) ->
+  (forall lk, In lk (bLocks (get_b w i)) -> ~ In lk U /\ ~ In lk (bD (get_b w i))) ->
+  let '(w', ok) := backend_commit U now w i in
+  faults w' = faults w /\ length (bks w') = length (bks w) /\ lorder w' = lorder w /\ (pos w <= pos w')%nat /\
+  (forall j, j <> i -> get_b w' j = get_b w j) /\ bLocks (get_b w' i) = [] /\
+  (forall lk, In lk (bLocks (get_b w i)) ->
+     bB (get_b w' i) lk = None \/ exists p, (pos w <= p < pos w')%nat /\ memn p (faults w) = true).
+Proof. exact backend_commit_spec. Qed.
+Print Assumptions C16_backend_commit.
+
+(* Transaction.commit over any number of backends, any fault set (a failing backend's successors are rolled back) *)
+Theorem C16_commit_releases : forall U now is_, NoDup is_ -> forall w, wfw w is_ ->
+  (forall i, In i is_ -> forall lk, In lk (bLocks (get_b w i)) -> ~ In lk U /\ ~ In lk (bD (get_b w i))) ->
+  let '(w', ok) := commit_from U now w is_ in
+  faults w' = faults w /\ length (bks w') = length (bks w) /\ lorder w' = lorder w /\ (pos w <= pos w')%nat /\
+  (forall j, ~ In j is_ -> get_b w' j = get_b w j) /\
+  (forall i, In i is_ ->
+     bLocks (get_b w' i) = [] /\
+     (forall lk, In lk (bLocks (get_b w i)) ->
+        bB (get_b w' i) lk = None \/ exists p, (pos w <= p < pos w')%nat /\ memn p (faults w) = true)).
+Proof. exact commit_from_spec. Qed.
+Print Assumptions C16_commit_releases.
